@@ -121,8 +121,8 @@ def judge(ctx, recs, nest, chunks=1, label="judge"):
         if not m or int(m.group(1)) != len(rs):
             raise Machinery("Trace_Inputs did not judge all %d records of chunk %d" % (len(rs), c))
         out = []
-        for m in re.finditer(r'<<"REJECT", (\d+), (\d+), "([\w-]+)">>', r.out):
-            out.append((c * size + int(m.group(1)) - 1, int(m.group(2)), m.group(3)))
+        for m in re.finditer(r'<<"REJECT", (\d+), (\d+), "([\w-]+)", "([^"]*)">>', r.out):
+            out.append((c * size + int(m.group(1)) - 1, int(m.group(2)), m.group(3), m.group(4)))
         return out
     rej = []
     for x in par(ctx, one, parts, min(len(parts), ctx.workers)):
@@ -140,7 +140,7 @@ def candidates_from(recs, rejects):
     """One candidate per rejected (record, group, entry point): signature = entry point +
     input class (region, mutation class) + failure kind (panic message class / timeout / alloc...)."""
     cands = []
-    for (i, j, reason) in rejects:
+    for (i, j, reason, rep) in rejects:
         rec = recs[i]
         if j == 0:
             cands.append({"sig": {"kind": rec["k"], "fail": "machinery:" + reason}, "rec": rec, "ep": "", "mode": ""})
@@ -148,6 +148,8 @@ def candidates_from(recs, rejects):
         g = rec["g"][j - 1]
         for e in g["e"]:
             ep = rec["eps"][e]
+            if rep != "*" and rep != ep:
+                continue
             bad = [b for b in rec.get("bad", []) if b["ep"] == ep and b["m"] == g["m"]]
             if reason == "outcome":
                 if not bad:
@@ -156,6 +158,10 @@ def candidates_from(recs, rejects):
                     b = bad[0]
                     fail = ("panic: " + b.get("msg", "")) if b["o"] == "panic" else (b["o"] + (": " + b["msg"] if b.get("msg") else ""))
                     site = b.get("site", "")
+                    if b["o"] == "timeout":
+                        fail, site = "timeout", ""
+            elif reason == "time":
+                fail, site = "timeout", ""      # same failure kind as a watchdog kill
             else:
                 fail, site = reason, ""
             region = "+".join(sorted(rec.get("reg", []))) or ("bytes" if rec["sw"] else "none")
@@ -223,14 +229,14 @@ def rerun_cases(ctx, binary, model, bodies, nest, label):
             recs.append(r)
     rej = judge(ctx, recs, nest, label=label)
     again = [False] * len(bodies)
-    for (i, j, reason) in rej:
+    for (i, j, reason, rep) in rej:
         n = owner[i]
         ep = bodies[n]["case"].get("ep")
         if j == 0 or not ep:
             again[n] = True
             continue
         g = recs[i]["g"][j - 1]
-        if ep in [recs[i]["eps"][e] for e in g["e"]]:
+        if ep in [recs[i]["eps"][e] for e in g["e"]] and rep in ("*", ep):
             again[n] = True
     return again
 
@@ -295,7 +301,7 @@ def run(ctx):
     cands = []
     if rej:
         # re-run the rejected programs / sweep seeds input by input and judge each input
-        bad = sorted(set(i for (i, _, _) in rej))
+        bad = sorted(set(x[0] for x in rej))
         only = {"progs": sorted(set(recs[i]["i"] for i in bad if not recs[i]["sw"])),
                 "seeds": sorted(set("%s/%s" % (recs[i]["k"], recs[i]["seed"]) for i in bad if recs[i]["sw"]))}
         onlyf = ctx.path("only.json")
@@ -330,7 +336,7 @@ def run(ctx):
     again = rerun_cases(ctx, binary, model, bodies, nest, "repro") if bodies else []
     final = []
     for body, ok in zip(bodies, again):
-        if not ok and body["sig"]["fail"] in ("time", "timeout"):
+        if not ok and body["sig"]["fail"] == "timeout":
             ctx.note("timeout not repeated in a fresh process, dropped: %s" % body["what"])
             continue
         body["_again"] = ok
@@ -356,7 +362,7 @@ def selftest(ctx, recs, nest):
     bad[3]["g"] = bad[3]["g"][1:]                 # an entry point x mode silently skipped
     bad[4]["p"] = [{"op": "NoSuchOp", "n": bad[4]["p"][0]["n"], "a": "-"}]   # not a program of the model
     rej = judge(ctx, bad, nest, label="selftest")
-    hit = set(i for (i, _, _) in rej)
+    hit = set(x[0] for x in rej)
     missing = [i for i in range(5) if i not in hit]
     if missing:
         raise Machinery("selftest: corrupted observations %s were accepted - the validator constrains nothing" % missing)
